@@ -599,7 +599,8 @@ func replies(rng *rand.Rand, thorough bool) []*In {
 	}
 	// a handler that answers with the status ResourceExhausted: recalcObjsPerSyncMsg reports it
 	// with the very text of a refused request
-	for _, st := range [][2][][2]int{{run1(2, tiny), run1(3, kb)}, {run1(5, kb), run1(30, 300_000)}} {
+	for _, st := range [][2][][2]int{{run1(2, tiny), run1(3, kb)}, {run1(5, kb), run1(30, 300_000)},
+		{run1(5, kb), run1(20, kb)}, {run1(40, kb), run1(25, 300_000)}} {
 		in := mk("reply", "handler answers ResourceExhausted", st[0], st[1])
 		in.Handler = "exhausted"
 		out = append(out, in)
